@@ -870,7 +870,7 @@ func runC07(ctx *Ctx) error {
 		run(mpLayout{Ops: &two, Map: ptr(jObj(kv("0", jArr(jStr(p)))).String()), Files: mpFiles("0")}.build("multipart/bad-path-batch"))
 	}
 	// 3. generated streams
-	structured, multi, mutated := 500*ctx.Budget, 500*ctx.Budget, 700*ctx.Budget
+	structured, multi, mutated := 2500*ctx.Budget, 2500*ctx.Budget, 3500*ctx.Budget
 	var pool []httpCase
 	pool = append(pool, corpus...)
 	for k := 0; k < structured; k++ {
